@@ -274,8 +274,11 @@ class Printer:
                 cfmt = n.get('cfmt', 's')
                 # (a variable called 'var' needs the long form: the short
                 # one, %(var opts)s, is the var tag itself)
+                # ... and any variable may be written in the long form
+                long_form = st is not None and not getattr(
+                    st, 'plain', False) and st.pick(4) == 0
                 if n['ref']['r'] == 'name' and not attrs[0].startswith(
-                        'name=') and attrs[0] != 'var':
+                        'name=') and attrs[0] != 'var' and not long_form:
                     self.emit('tag', '%%(%s%s)%s' % (
                         attrs[0], _join_attrs(sx, st, opts) if opts else '',
                         cfmt), ('inline', 'var'))
